@@ -160,6 +160,9 @@ def run(ctx):
         an, n = LR.L1(ctx, fi, rule='stable')
     ctx.floor('(primitive, configuration) pairs', n_sites, 10)
     check_key_alignment(ctx)
+    from .C15 import none_tests_of
+    none_tests_of(ctx, [repo.nfunc(sp['rel'], sp['q']) for sp in PRIMS] + [repo.nfunc(MECH, 'Mechanism.generalized_exponential_mechanism')],
+                  what='the legal value 0 (e.g. slack t = 0)')
     check_gem(ctx)
     check_helpers(ctx)
 
